@@ -48,6 +48,7 @@ type commitLog struct {
 	vActiveSegment   *segment
 	hwWaiters        map[contextReader]chan bool
 	leaderEpochCache *leaderEpochCache
+	cleanMu          sync.Mutex // serializes Clean and Truncate
 	deleted          bool
 	Options
 }
@@ -594,6 +595,10 @@ func (l *commitLog) IsClosed() bool {
 
 // Truncate removes all messages from the log starting at the given offset.
 func (l *commitLog) Truncate(offset int64) error {
+	// Not while a clean is running: it works on a snapshot of the segment
+	// list and installs the result when it is done.
+	l.cleanMu.Lock()
+	defer l.cleanMu.Unlock()
 	l.mu.Lock()
 	defer l.mu.Unlock()
 	seg, idx := findSegment(l.segments, offset)
@@ -801,6 +806,13 @@ func (l *commitLog) cleanerLoop() {
 
 // Clean applies retention and compaction rules against the log, if applicable.
 func (l *commitLog) Clean() error {
+	// Cleaning takes a snapshot of the segment list, works on it without the
+	// log's lock and installs the result, to which only the segments rolled in
+	// the meantime are added. A truncation in between would be undone in
+	// memory (the segments it replaced or deleted are listed again) and both
+	// would work on the files of the same segments, so they exclude each other.
+	l.cleanMu.Lock()
+	defer l.cleanMu.Unlock()
 	l.mu.RLock()
 	oldSegments := l.segments
 	l.mu.RUnlock()
